@@ -94,10 +94,16 @@ package main
 //@   nosafety
 //@   pathcap 20000
 //@   loop 1 invariant true
-//@   loop 2 invariant true
-//@   loop 3 invariant true
+//@   loop 2 invariant#idx -1 <= rangeindex && rangeindex < len(identityFlags)
+//@   loop 2 invariant#ids forall j in 0..rangeindex+1 :: identityFlags[j].Type == "i" ==> (exists k in 0..len(inUseFiles) :: inUseFiles[k] == canon(identityFlags[j].Value))   [C15]
+//@   loop 3 invariant#idx -1 <= rangeindex && rangeindex < len(recipientsFileFlags)
+//@   loop 3 invariant#ids forall j in 0..len(identityFlags) :: identityFlags[j].Type == "i" ==> (exists k in 0..len(inUseFiles) :: inUseFiles[k] == canon(identityFlags[j].Value))   [C15]
+//@   loop 3 invariant#recs forall j in 0..rangeindex+1 :: (exists k in 0..len(inUseFiles) :: inUseFiles[k] == canon(recipientsFileFlags[j]))   [C15]
 //@   loop 4 invariant#checked -1 <= rangeindex && rangeindex < len(inUseFiles) && (forall j in 0..rangeindex+1 :: inUseFiles[j] != canon(name))   [C15]
 //@   call newLazyOpener#1 requires arg0 == name && (forall j in 0..len(inUseFiles) :: inUseFiles[j] != canon(name))   [C15]
+//@   call newLazyOpener#1 requires forall j in 0..len(identityFlags) :: identityFlags[j].Type == "i" ==> canon(identityFlags[j].Value) != canon(name)   [C15]
+//@   call newLazyOpener#1 requires forall j in 0..len(recipientsFileFlags) :: canon(recipientsFileFlags[j]) != canon(name)   [C15]
+//@   call newLazyOpener#1 requires (flagarg(0) != "" && flagarg(0) != "-") ==> canon(flagarg(0)) != canon(name)    [C15]
 
 //@ func readPubFile(name) (pk, err)
 //@   ensures#nonnil err == nil ==> pk != nil                                                                        [C14 C18]
@@ -119,7 +125,6 @@ package main
 //@ func identitiesToRecipients(ids) (recs, err)
 //@   nosafety
 //@   modifies nothing
-//@   requires forall j in 0..len(ids) :: ids[j] != nil
 //@   loop 1 invariant#idx -1 <= rangeindex && rangeindex < len(ids)
 //@   loop 1 invariant#nonnil forall j in 0..len(recipients) :: recipients[j] != nil                                 [C14 C18]
 //@   ensures#nonnil err == nil ==> (forall j in 0..len(recs) :: recs[j] != nil)                                     [C14 C18]
@@ -160,3 +165,9 @@ package main
 //@   loop 3 invariant#nonnil forall j in 0..len(recipients) :: recipients[j] != nil                                 [C14 C15]
 //@   call encrypt#1 requires same(arg1, in) && same(arg2, out) && arg3 == armor                                     [C15]
 //@   ensures#ran calls("encrypt",1) == old(calls("encrypt",1)) + 1                                                  [C15]
+
+//@ func bufferTerminalInput(in) (r, err)
+//@   nosafety
+//@   requires in != nil
+//@   modifies in.$rem
+//@   ensures#nonnil err == nil ==> r != nil                                                                         [C14]
